@@ -405,7 +405,7 @@ namespace ST
                             int_T value) \
     { \
         if (format.digit_class == ST::digit_char) \
-            _ST_PRIVATE::format_char(format, output, static_cast<int>(value)); \
+            _ST_PRIVATE::format_char(format, output, _ST_PRIVATE::char_value(value)); \
         else \
             _ST_PRIVATE::format_numeric_s<int_T>(format, output, value); \
     } \
@@ -414,7 +414,7 @@ namespace ST
                             uint_T value) \
     { \
         if (format.digit_class == ST::digit_char) \
-            _ST_PRIVATE::format_char(format, output, static_cast<int>(value)); \
+            _ST_PRIVATE::format_char(format, output, _ST_PRIVATE::char_value(value)); \
         else \
             _ST_PRIVATE::format_numeric_u<uint_T>(format, output, value); \
     }
